@@ -132,6 +132,16 @@ CHECKS['C18'] = dict(
     note='date formats without commas; header texts from a vocabulary with known detection classes',
     design='§4 C18')
 
+CHECKS['C17'] = dict(
+    technique='TLA+ spec RulesFile.tla (both line-oriented readers as state machines over line tokens; the intended reader rejects, never '
+              'trims): TLC checks CommentsIrrelevant / PropOrderIrrelevant / OneRulePerSection / ExactProps / RejectNotTrim on valid base '
+              'files and every single (views: double) edit of them; every state rendered with random layout (indentation, trailing blanks, '
+              'CRLF, key case) and read by parse_merchants / parse_sections; tally up / diag on corrupt files',
+    text='Every single-point corruption and layout-preserving edit of the base files is enumerated by TLC; rules read, or the error line, '
+         'are compared with the specification; the command line must report an unloadable rules file.',
+    note='one token per line; duplicate single-valued properties not generated; any corrupted line is accepted as the reported line',
+    design='§4 C17')
+
 NOT_YET = {}
 
 
